@@ -2,6 +2,7 @@
 package c10
 
 import (
+	"crypto/rand"
 	"crypto/sha1"
 	"crypto/x509/pkix"
 	"encoding/asn1"
@@ -28,8 +29,9 @@ type desc struct {
 	nb, na   int    // validity window (years)
 	hasBC    bool
 	isCA     bool
-	pathLen  int // -1 = unset
-	ku       int // 0 = no key usage extension, 1 = includes certSign, 2 = without certSign
+	v1       bool // re-encoded as an X.509 version 1 certificate: no version field, no extensions; signed again by the same key
+	pathLen  int  // -1 = unset
+	ku       int  // 0 = no key usage extension, 1 = includes certSign, 2 = without certSign
 	permit   []string
 	eku      []gx509.ExtKeyUsage
 	unkEKU   bool // the extension also lists a usage this library has no name for
@@ -126,7 +128,66 @@ func build(d desc) (*cert, error) {
 	if err != nil {
 		return nil, fmt.Errorf("parse %s: %v", d.id, err)
 	}
+	if d.v1 {
+		if der, err = asVersion1(x, keyOf(d.signKey)); err != nil {
+			return nil, fmt.Errorf("version 1 form of %s: %v", d.id, err)
+		}
+		if x, err = gx509.ParseCertificate(der); err != nil {
+			return nil, fmt.Errorf("parse version 1 form of %s: %v", d.id, err)
+		}
+		if x.Version != 1 || len(x.Extensions) != 0 {
+			return nil, fmt.Errorf("%s: version %d with %d extensions after re-encoding", d.id, x.Version, len(x.Extensions))
+		}
+	}
 	return &cert{d, x}, nil
+}
+
+// asVersion1 drops the version field and the extensions from the TBSCertificate and signs the result
+// again: the certificate a pre-1996 CA would have issued. CreateCertificate cannot produce one.
+func asVersion1(x *gx509.Certificate, signer *sm2.PrivateKey) ([]byte, error) {
+	var tbs asn1.RawValue
+	if _, err := asn1.Unmarshal(x.RawTBSCertificate, &tbs); err != nil {
+		return nil, err
+	}
+	var body []byte
+	rest := tbs.Bytes
+	for len(rest) > 0 {
+		var el asn1.RawValue
+		var err error
+		if rest, err = asn1.Unmarshal(rest, &el); err != nil {
+			return nil, err
+		}
+		if el.Class == asn1.ClassContextSpecific && (el.Tag == 0 || el.Tag == 3) {
+			continue
+		}
+		body = append(body, el.FullBytes...)
+	}
+	newTBS, err := asn1.Marshal(asn1.RawValue{Class: 0, Tag: 16, IsCompound: true, Bytes: body})
+	if err != nil {
+		return nil, err
+	}
+	sig, err := signer.Sign(rand.Reader, newTBS, nil)
+	if err != nil {
+		return nil, err
+	}
+	// Certificate ::= SEQUENCE { tbs, signatureAlgorithm, signature }: the algorithm is the second element of the original
+	var outer asn1.RawValue
+	if _, err := asn1.Unmarshal(x.Raw, &outer); err != nil {
+		return nil, err
+	}
+	var first, alg asn1.RawValue
+	r2, err := asn1.Unmarshal(outer.Bytes, &first)
+	if err != nil {
+		return nil, err
+	}
+	if _, err = asn1.Unmarshal(r2, &alg); err != nil {
+		return nil, err
+	}
+	bs, err := asn1.Marshal(asn1.BitString{Bytes: sig, BitLength: 8 * len(sig)})
+	if err != nil {
+		return nil, err
+	}
+	return asn1.Marshal(asn1.RawValue{Class: 0, Tag: 16, IsCompound: true, Bytes: append(append(append([]byte{}, newTBS...), alg.FullBytes...), bs...)})
 }
 
 type universe struct {
@@ -190,6 +251,14 @@ func buildUniverse() (*universe, error) {
 		a.with(func(d *desc) { d.id = "A-notyet"; d.nb, d.na = 2022, 2040 }),
 		a.with(func(d *desc) { d.id = "A-CAfalse"; d.isCA = false }),
 		a.with(func(d *desc) { d.id = "A-noBC"; d.hasBC = false; d.isCA = false }),
+		a.with(func(d *desc) {
+			d.id = "A-version1"
+			d.v1 = true
+			d.hasBC = false
+			d.isCA = false
+			d.ku = 0
+			d.ski = 1
+		}),
 		a.with(func(d *desc) { d.id = "A-noCertSign"; d.ku = 2 }),
 		a.with(func(d *desc) { d.id = "A-pathlen0"; d.pathLen = 0 }),
 		a.with(func(d *desc) { d.id = "A-forged"; d.signKey = kX }),
